@@ -1,6 +1,226 @@
 (* Proofs/FormatProofs.v — proofs about Expand/Format.v *)
 From Verif Require Import Base.Str Expand.Format.
+From Coq Require Import ZifyN ZifyNat ZifyBool.
 Open Scope N_scope.
 
+(* ------------------------------------------------------------------ fuel and panics *)
 Lemma emit_not_fuel : forall bs r, emit bs r = OutOfFuel -> r = OutOfFuel.
 Proof. intros bs r; destruct r; simpl; congruence. Qed.
+Lemma emit_not_panic : forall bs r, emit bs r = GoPanic -> r = GoPanic.
+Proof. intros bs r; destruct r; simpl; congruence. Qed.
+
+Lemma emit_ne_fuel : forall bs r, r <> OutOfFuel -> emit bs r <> OutOfFuel.
+Proof. intros bs r H E; apply emit_not_fuel in E; auto. Qed.
+Lemma emit_ne_panic : forall bs r, r <> GoPanic -> emit bs r <> GoPanic.
+Proof. intros bs r H E; apply emit_not_panic in E; auto. Qed.
+
+Lemma read_digits_len : forall m h s d r, read_digits m h s = (d, r) -> (length r <= length s)%nat.
+Proof.
+  induction m; intros h s d r H; simpl in H.
+  - inversion H; subst; lia.
+  - destruct s as [|c t]; [inversion H; subst; simpl; lia|].
+    destruct (rd_ok h c).
+    + destruct (read_digits m h t) as [d' r'] eqn:E. inversion H; subst.
+      apply IHm in E. simpl; lia.
+    + inversion H; subst; lia.
+Qed.
+
+Lemma take_arg_some : forall a, take_arg a <> None.
+Proof.
+  intros [l|]; unfold take_arg; simpl.
+  - destruct l; simpl; discriminate.
+  - discriminate.
+Qed.
+
+Section LoopFacts.
+  Variable brec : str -> outcome.
+
+  Lemma loop_no_oof :
+    (forall a, brec a <> OutOfFuel) ->
+    forall fuel pb format fmts args, (length format < fuel)%nat ->
+    loop brec fuel pb format fmts args <> OutOfFuel.
+  Proof.
+    intros Hb. induction fuel; intros pb format fmts args Hl; [lia|].
+    destruct format as [|c rest]; cbn [loop].
+    - destruct (nonempty fmts); discriminate.
+    - simpl length in Hl.
+      repeat match goal with
+      | |- emit _ _ <> OutOfFuel => apply emit_ne_fuel
+      | |- loop _ _ _ _ _ _ <> OutOfFuel => apply IHfuel; simpl length in *; lia
+      | E : read_digits _ _ _ = (_, _) |- loop _ _ _ _ _ _ <> OutOfFuel =>
+          apply read_digits_len in E; apply IHfuel; simpl length in *; lia
+      | |- Fail _ <> _ => discriminate
+      | |- GoPanic <> _ => discriminate
+      | |- Unmodelled <> _ => discriminate
+      | |- (if ?b then _ else _) <> _ => destruct b
+      | |- (let '(_, _) := ?x in _) <> _ => destruct x eqn:?
+      | |- match ?x with _ => _ end <> _ => destruct x eqn:?
+      end.
+      all: try (match goal with E : brec _ = OutOfFuel |- _ => exfalso; exact (Hb _ E) end).
+  Qed.
+
+  Lemma loop_no_panic :
+    (forall a, brec a <> GoPanic) ->
+    forall fuel pb format fmts args, loop brec fuel pb format fmts args <> GoPanic.
+  Proof.
+    intros Hb. induction fuel; intros pb format fmts args; [discriminate|].
+    destruct format as [|c rest]; cbn [loop].
+    - destruct (nonempty fmts); discriminate.
+    - repeat match goal with
+      | |- emit _ _ <> GoPanic => apply emit_ne_panic
+      | |- loop _ _ _ _ _ _ <> GoPanic => apply IHfuel
+      | |- Fail _ <> _ => discriminate
+      | |- OutOfFuel <> _ => discriminate
+      | |- Unmodelled <> _ => discriminate
+      | |- (if ?b then _ else _) <> _ => destruct b
+      | |- (let '(_, _) := ?x in _) <> _ => destruct x eqn:?
+      | |- match ?x with _ => _ end <> _ => destruct x eqn:?
+      end.
+      all: try (match goal with E : brec _ = GoPanic |- _ => exfalso; exact (Hb _ E) end).
+      all: try (match goal with E : take_arg _ = None |- _ => exfalso; exact (take_arg_some _ E) end).
+  Qed.
+End LoopFacts.
+
+Lemma format_b_no_oof : forall a, format_b a <> OutOfFuel.
+Proof. intro a; unfold format_b; apply loop_no_oof; [discriminate | lia]. Qed.
+Lemma format_b_no_panic : forall a, format_b a <> GoPanic.
+Proof. intro a; unfold format_b; apply loop_no_panic; discriminate. Qed.
+Lemma format_into_no_oof : forall f a, format_into f a <> OutOfFuel.
+Proof. intros; unfold format_into; apply loop_no_oof; [apply format_b_no_oof | lia]. Qed.
+Lemma format_into_no_panic : forall f a, format_into f a <> GoPanic.
+Proof. intros; unfold format_into; apply loop_no_panic; apply format_b_no_panic. Qed.
+
+Lemma format_no_oof : forall f a, format f a <> FOutOfFuel.
+Proof. intros f a; unfold format; pose proof (format_into_no_oof f a); destruct (format_into f a); congruence. Qed.
+Lemma format_no_panic : forall f a, format f a <> FPanic.
+Proof. intros f a; unfold format; pose proof (format_into_no_panic f a); destruct (format_into f a); congruence. Qed.
+Lemma format_consumed_le : forall f a s n, format f (Some a) = FOk s n -> (n <= length a)%nat.
+Proof. intros f a s n; unfold format; destruct (format_into f (Some a)); intro H; inversion H; subst; simpl; lia. Qed.
+
+Lemma bemit_ne_fuel : forall bs r, r <> BOutOfFuel -> bemit bs r <> BOutOfFuel.
+Proof. intros bs r H; destruct r; simpl; congruence. Qed.
+Lemma bemit_ne_panic : forall bs r, r <> BPanic -> bemit bs r <> BPanic.
+Proof. intros bs r H; destruct r; simpl; congruence. Qed.
+
+(* the reuse loop: every continuing round consumed >= 1 argument, so |args|+1 rounds suffice *)
+Lemma printf_rounds_terminates : forall fuel fmt args, (length args < fuel)%nat ->
+  printf_rounds fuel fmt args <> BOutOfFuel.
+Proof.
+  induction fuel; intros fmt args Hl; [lia|]. cbn [printf_rounds].
+  pose proof (format_no_oof fmt (Some args)) as Hf.
+  destruct (format fmt (Some args)) as [s n| | | |] eqn:E; try discriminate; try congruence.
+  apply format_consumed_le in E.
+  destruct (length args <? n)%nat eqn:L; [discriminate|].
+  destruct (n =? 0)%nat eqn:N0; simpl; [discriminate|].
+  destruct (nonempty (skipn n args)) eqn:NE; simpl; [|discriminate].
+  apply bemit_ne_fuel, IHfuel. rewrite skipn_length. apply Nat.eqb_neq in N0. lia.
+Qed.
+
+Lemma printf_rounds_no_panic : forall fuel fmt args, printf_rounds fuel fmt args <> BPanic.
+Proof.
+  induction fuel; intros fmt args; [discriminate|]. cbn [printf_rounds].
+  pose proof (format_no_panic fmt (Some args)) as Hf.
+  destruct (format fmt (Some args)) as [s n| | | |] eqn:E; try discriminate; try congruence.
+  apply format_consumed_le in E.
+  destruct (length args <? n)%nat eqn:L; [apply Nat.ltb_lt in L; lia|].
+  destruct ((n =? 0)%nat || negb (nonempty (skipn n args))); [discriminate|].
+  apply bemit_ne_panic, IHfuel.
+Qed.
+
+Theorem printf_builtin_terminates : forall argv, printf_builtin argv <> BOutOfFuel.
+Proof. intros [|f a]; unfold printf_builtin; [discriminate|]. apply printf_rounds_terminates; lia. Qed.
+Theorem printf_builtin_no_panic : forall argv, printf_builtin argv <> BPanic.
+Proof. intros [|f a]; unfold printf_builtin; [discriminate|]. apply printf_rounds_no_panic. Qed.
+
+Lemma echo_expand_ok : forall a, echo_expand a <> BPanic /\ echo_expand a <> BOutOfFuel.
+Proof.
+  intro a; unfold echo_expand.
+  pose proof (format_no_panic [PCT; 98] (Some [a])); pose proof (format_no_oof [PCT; 98] (Some [a])).
+  destruct (format [PCT; 98] (Some [a])); split; congruence.
+Qed.
+Lemma echo_args_ok : forall args first doexp nl,
+  echo_args first doexp args nl <> BPanic /\ echo_args first doexp args nl <> BOutOfFuel.
+Proof.
+  induction args as [|a t IH]; intros first doexp nl; cbn [echo_args]; [split; discriminate|].
+  destruct (echo_expand_ok a) as [P F].
+  destruct doexp.
+  - destruct (echo_expand a); try congruence; try (split; discriminate).
+    destruct (IH false true nl). split; [apply bemit_ne_panic | apply bemit_ne_fuel]; auto.
+  - destruct (IH false false nl). split; [apply bemit_ne_panic | apply bemit_ne_fuel]; auto.
+Qed.
+Theorem echo_builtin_ok : forall args, echo_builtin args <> BPanic /\ echo_builtin args <> BOutOfFuel.
+Proof.
+  intro args; unfold echo_builtin. destruct (echo_opts args true false) as [[r nl] ex]. apply echo_args_ok.
+Qed.
+
+
+(* ------------------------------------------------------------------ refuted: one witness per known class.
+   [bash_*] = what real bash 5.2 writes (re-confirmed on every run by the harness' pinned witnesses). *)
+(* printf '%.2s' 'abcdef'  -> bash: 'ab' status 0 *)
+Definition w_precision_rejected : list str := [[37;46;50;115]; [97;98;99;100;101;102]].
+Lemma refuted_precision_rejected : printf_builtin w_precision_rejected <> BOut [97;98] 0 /\ (fun a => spec_printf (hd [] a) (tl a)) w_precision_rejected = None.
+Proof. split; [vm_compute; discriminate | vm_compute; reflexivity]. Qed.
+(* printf '%d' 'abc'  -> bash: '0' status 1 *)
+Definition w_invalid_number_argument : list str := [[37;100]; [97;98;99]].
+Lemma refuted_invalid_number_argument : printf_builtin w_invalid_number_argument <> BOut [48] 1 /\ (fun a => spec_printf (hd [] a) (tl a)) w_invalid_number_argument = None.
+Proof. split; [vm_compute; discriminate | vm_compute; reflexivity]. Qed.
+(* printf '%d' "'a"  -> bash: '97' status 0 *)
+Definition w_char_constant_argument : list str := [[37;100]; [39;97]].
+Lemma refuted_char_constant_argument : printf_builtin w_char_constant_argument <> BOut [57;55] 0 /\ (fun a => spec_printf (hd [] a) (tl a)) w_char_constant_argument = None.
+Proof. split; [vm_compute; discriminate | vm_compute; reflexivity]. Qed.
+(* printf '%05s|' 'ab'  -> bash: '   ab|' status 0 *)
+Definition w_zero_flag_on_string : list str := [[37;48;53;115;124]; [97;98]].
+Lemma refuted_zero_flag_on_string : printf_builtin w_zero_flag_on_string <> BOut [32;32;32;97;98;124] 0 /\ (fun a => spec_printf (hd [] a) (tl a)) w_zero_flag_on_string = None.
+Proof. split; [vm_compute; discriminate | vm_compute; reflexivity]. Qed.
+(* printf '%5b|' 'x'  -> bash: '    x|' status 0 *)
+Definition w_b_width_ignored : list str := [[37;53;98;124]; [120]].
+Lemma refuted_b_width_ignored : printf_builtin w_b_width_ignored <> BOut [32;32;32;32;120;124] 0 /\ (fun a => spec_printf (hd [] a) (tl a)) w_b_width_ignored = None.
+Proof. split; [vm_compute; discriminate | vm_compute; reflexivity]. Qed.
+(* printf '%+x' '255'  -> bash: 'ff' status 0 *)
+Definition w_sign_flag_on_unsigned : list str := [[37;43;120]; [50;53;53]].
+Lemma refuted_sign_flag_on_unsigned : printf_builtin w_sign_flag_on_unsigned <> BOut [102;102] 0 /\ (fun a => spec_printf (hd [] a) (tl a)) w_sign_flag_on_unsigned = None.
+Proof. split; [vm_compute; discriminate | vm_compute; reflexivity]. Qed.
+(* printf '%+ d' '5'  -> bash: '+5' status 0 *)
+Definition w_multiple_flags_rejected : list str := [[37;43;32;100]; [53]].
+Lemma refuted_multiple_flags_rejected : printf_builtin w_multiple_flags_rejected <> BOut [43;53] 0 /\ (fun a => spec_printf (hd [] a) (tl a)) w_multiple_flags_rejected = None.
+Proof. split; [vm_compute; discriminate | vm_compute; reflexivity]. Qed.
+(* printf 'abc%'  -> bash: 'abc' status 1 *)
+Definition w_incomplete_directive_output : list str := [[97;98;99;37]].
+Lemma refuted_incomplete_directive_output : printf_builtin w_incomplete_directive_output <> BOut [97;98;99] 1 /\ (fun a => spec_printf (hd [] a) (tl a)) w_incomplete_directive_output = None.
+Proof. split; [vm_compute; discriminate | vm_compute; reflexivity]. Qed.
+(* printf '%5%|'  -> bash: '' status 1 *)
+Definition w_percent_with_flags_or_width : list str := [[37;53;37;124]].
+Lemma refuted_percent_with_flags_or_width : printf_builtin w_percent_with_flags_or_width <> BOut [] 1 /\ (fun a => spec_printf (hd [] a) (tl a)) w_percent_with_flags_or_width = None.
+Proof. split; [vm_compute; discriminate | vm_compute; reflexivity]. Qed.
+(* printf '%u' '18446744073709551615'  -> bash: '18446744073709551615' status 0 *)
+Definition w_unsigned_beyond_int64 : list str := [[37;117]; [49;56;52;52;54;55;52;52;48;55;51;55;48;57;53;53;49;54;49;53]].
+Lemma refuted_unsigned_beyond_int64 : printf_builtin w_unsigned_beyond_int64 <> BOut [49;56;52;52;54;55;52;52;48;55;51;55;48;57;53;53;49;54;49;53] 0 /\ (fun a => spec_printf (hd [] a) (tl a)) w_unsigned_beyond_int64 = None.
+Proof. split; [vm_compute; discriminate | vm_compute; reflexivity]. Qed.
+(* printf '%b' 'a\\cb' 'x'  -> bash: 'a' status 0 *)
+Definition w_b_backslash_c : list str := [[37;98]; [97;92;99;98]; [120]].
+Lemma refuted_b_backslash_c : printf_builtin w_b_backslash_c <> BOut [97] 0 /\ (fun a => spec_printf (hd [] a) (tl a)) w_b_backslash_c = None.
+Proof. split; [vm_compute; discriminate | vm_compute; reflexivity]. Qed.
+(* printf '%b' "\\'"  -> bash: "\\'" status 0 *)
+Definition w_b_quote_escape : list str := [[37;98]; [92;39]].
+Lemma refuted_b_quote_escape : printf_builtin w_b_quote_escape <> BOut [92;39] 0 /\ (fun a => spec_printf (hd [] a) (tl a)) w_b_quote_escape = None.
+Proof. split; [vm_compute; discriminate | vm_compute; reflexivity]. Qed.
+(* printf '%5s|' 'é'  -> bash: '   é|' status 0 *)
+Definition w_width_counts_runes : list str := [[37;53;115;124]; [195;169]].
+Lemma refuted_width_counts_runes : printf_builtin w_width_counts_runes <> BOut [32;32;32;195;169;124] 0 /\ (fun a => spec_printf (hd [] a) (tl a)) w_width_counts_runes = None.
+Proof. split; [vm_compute; discriminate | vm_compute; reflexivity]. Qed.
+(* printf '\\ud800'  -> bash: b'\xed\xa0\x80' status 0 *)
+Definition w_unicode_escape_nonscalar : list str := [[92;117;100;56;48;48]].
+Lemma refuted_unicode_escape_nonscalar : printf_builtin w_unicode_escape_nonscalar <> BOut [237;160;128] 0 /\ (fun a => spec_printf (hd [] a) (tl a)) w_unicode_escape_nonscalar = None.
+Proof. split; [vm_compute; discriminate | vm_compute; reflexivity]. Qed.
+(* printf '\\%d|' '7'  -> bash: '\\7|' status 0 *)
+Definition w_backslash_percent : list str := [[92;37;100;124]; [55]].
+Lemma refuted_backslash_percent : printf_builtin w_backslash_percent <> BOut [92;55;124] 0 /\ (fun a => spec_printf (hd [] a) (tl a)) w_backslash_percent = None.
+Proof. split; [vm_compute; discriminate | vm_compute; reflexivity]. Qed.
+(* echo '-ne' 'a\\n'  -> bash: 'a\n' status 0 *)
+Definition w_echo_combined_options : list str := [[45;110;101]; [97;92;110]].
+Lemma refuted_echo_combined_options : echo_builtin w_echo_combined_options <> BOut [97;10] 0 /\ spec_echo w_echo_combined_options = None.
+Proof. split; [vm_compute; discriminate | vm_compute; reflexivity]. Qed.
+(* echo '-e' '\\101'  -> bash: '\\101\n' status 0 *)
+Definition w_echo_bare_octal : list str := [[45;101]; [92;49;48;49]].
+Lemma refuted_echo_bare_octal : echo_builtin w_echo_bare_octal <> BOut [92;49;48;49;10] 0 /\ spec_echo w_echo_bare_octal = None.
+Proof. split; [vm_compute; discriminate | vm_compute; reflexivity]. Qed.
